@@ -167,6 +167,31 @@ def pair_line(p, q, expect, how, invocab=None):
             "how": how, "tp": tp, "tq": tq}
 
 
+def atoms(a):
+    if a["k"] == "obs":
+        return {IP.render(a)}
+    if a["k"] in ("paren", "qual"):
+        return atoms(a["e"])
+    out = set()
+    for x in a.get("args", []):
+        out |= atoms(x)
+    return out
+
+
+def irredundant(a):
+    """no OR (at observation level) has two operands sharing an observation expression"""
+    if a["k"] in ("paren", "qual"):
+        return irredundant(a["e"])
+    if a["k"] == "obs":
+        return True
+    args = a.get("args", [])
+    if a["k"] == "oor":
+        sets = [atoms(x) for x in args]
+        if any(sets[i] & sets[j] for i in range(len(sets)) for j in range(i + 1, len(sets))):
+            return False
+    return all(irredundant(x) for x in args)
+
+
 def generate(chk, quick):
     rng = chk.rng
     lines = []
@@ -206,9 +231,11 @@ def generate(chk, quick):
             rw = rewrite(rng, cur)
             if rw is None:
                 break
-            # one documented rewrite must be recognised; compositions of several are only judged for soundness
-            lines.append(pair_line(p, rw[1], "equiv" if step == 0 else "none", rw[0] if step == 0 else "composition:" + rw[0]))
-            lines.append(pair_line(rw[1], p, "equiv" if step == 0 else "none", (rw[0] if step == 0 else "composition:" + rw[0]) + "(reversed arguments)"))
+            # one documented rewrite must be recognised; compositions of several are only judged for soundness.  A rewrite applied to a pattern that is itself
+            # redundant (two operands of one OR share an observation, so absorption / idempotence apply as well) is such a composition.
+            exp = "equiv" if step == 0 and irredundant(p) else "none"
+            lines.append(pair_line(p, rw[1], exp, rw[0] if step == 0 else "composition:" + rw[0]))
+            lines.append(pair_line(rw[1], p, exp, (rw[0] if step == 0 else "composition:" + rw[0]) + "(reversed arguments)"))
             cur = rw[1]
         nr = near(rng, p)
         if nr is not None:
